@@ -24,6 +24,7 @@ type c03Case struct {
 	Resource bool `json:"resource"`
 	SM       bool `json:"sm"`
 	Prior    bool `json:"prior"` // resumable state from a real earlier connection
+	WS       bool `json:"ws,omitempty"` // WebSocket transport (RFC 7395 framing, no STARTTLS step)
 	// server behaviour
 	Script peer.Script `json:"script"`
 }
@@ -62,6 +63,7 @@ func genC03(t *rapid.T) c03Case {
 	c.Resource = rapid.Bool().Draw(t, "resource")
 	c.SM = rapid.Bool().Draw(t, "sm")
 	c.Prior = c.SM && rapid.IntRange(0, 2).Draw(t, "prior") == 0
+	c.WS = rapid.IntRange(0, 3).Draw(t, "ws") == 0
 	s := &c.Script
 	s.Mechs = []string{"PLAIN"}
 	s.OfferTLS = rapid.IntRange(0, 3).Draw(t, "offerTLS") != 0
@@ -106,7 +108,7 @@ func c03Model(c c03Case, sessionSent bool) (steps []string, success bool, resume
 	if dev("open1") {
 		return steps, false, false
 	}
-	if s.OfferTLS {
+	if s.OfferTLS && !c.WS {
 		for _, st := range []string{"starttls", "tls", "open2"} {
 			if dev(st) {
 				return steps, false, false
@@ -174,36 +176,69 @@ func runC03(c c03Case) vh.Result {
 	outc := make(chan *peer.Outcome, 4)
 	prior := &peer.Script{Mechs: []string{"PLAIN"}, OfferTLS: c.Script.OfferTLS, OfferSM: true, SMId: "sm-prior"}
 	script := c.Script
-	srv, err := peer.Listen(func(pc *peer.Conn) {
-		if c.Prior && pc.Index == 0 {
-			o := pc.Negotiate(prior, 10*time.Second)
+	var addr string
+	if c.WS {
+		res.Label("websocket")
+		wsrv, err := peer.ListenWS("xmpp", func(wc *peer.WSConn) {
+			if c.Prior && wc.Index == 0 {
+				o := wc.WSNegotiate(prior, 10*time.Second)
+				outc <- o
+				time.Sleep(30 * time.Millisecond) // let Connect return before the connection goes away
+				wc.DropTCP(time.Second)
+				return
+			}
+			o := wc.WSNegotiate(&script, 10*time.Second)
 			outc <- o
-			pc.Close()
-			return
+			// keep reading (and answering the closing handshake) until the client goes away
+			for {
+				ev := wc.Recv(8 * time.Second)
+				if ev.Kind == "close" {
+					wc.Send(`<close xmlns="urn:ietf:params:xml:ns:xmpp-framing"/>`)
+				}
+				if ev.Kind == "eof" || ev.Kind == "timeout" || ev.Kind == "close" {
+					return
+				}
+			}
+		})
+		if err != nil {
+			res.Fail("harness", "listen: %v", err)
+			return res
 		}
-		o := pc.Negotiate(&script, 10*time.Second)
-		outc <- o
-		if o.Established {
-			pc.AfterFault(8 * time.Second)
+		defer wsrv.Close()
+		addr = wsrv.URL
+	} else {
+		srv, err := peer.Listen(func(pc *peer.Conn) {
+			if c.Prior && pc.Index == 0 {
+				o := pc.Negotiate(prior, 10*time.Second)
+				outc <- o
+				pc.Close()
+				return
+			}
+			o := pc.Negotiate(&script, 10*time.Second)
+			outc <- o
+			if o.Established {
+				pc.AfterFault(8 * time.Second)
+			}
+		})
+		if err != nil {
+			res.Fail("harness", "listen: %v", err)
+			return res
 		}
-	})
-	if err != nil {
-		res.Fail("harness", "listen: %v", err)
-		return res
+		defer srv.Close()
+		addr = srv.Addr
 	}
-	defer srv.Close()
 	jid := "user@localhost"
 	if c.Resource {
 		jid += "/res"
 	}
 	// the prior connection must itself succeed: it needs TLS or insecure mode
-	cl, rec, _, err := newTestClientCfg(srv.Addr, clientOpt{Jid: jid, Insecure: c.Insecure, SM: c.SM})
+	cl, rec, _, err := newTestClientCfg(addr, clientOpt{Jid: jid, Insecure: c.Insecure, SM: c.SM})
 	if err != nil {
 		res.Fail("harness", "NewClient: %v", err)
 		return res
 	}
 	if c.Prior {
-		if !c.Script.OfferTLS && !c.Insecure {
+		if (!c.Script.OfferTLS || c.WS) && !c.Insecure {
 			res.Excluded = true // no resumable state can exist: the first connection cannot be made
 			return res
 		}
@@ -263,7 +298,7 @@ func runC03(c c03Case) vh.Result {
 			}
 		}
 	}
-	desc := fmt.Sprintf("config{insecure=%v resource=%v sm=%v prior=%v} server{tls=%v session=%q sm=%v resume=%q dev=%v}", c.Insecure, c.Resource, c.SM, c.Prior, c.Script.OfferTLS, c.Script.Session, c.Script.OfferSM, c.Script.ResumeReply, devString(c.Script.Dev))
+	desc := fmt.Sprintf("ws=%v config{insecure=%v resource=%v sm=%v prior=%v} server{tls=%v session=%q sm=%v resume=%q dev=%v}", c.WS, c.Insecure, c.Resource, c.SM, c.Prior, c.Script.OfferTLS, c.Script.Session, c.Script.OfferSM, c.Script.ResumeReply, devString(c.Script.Dev))
 	if cerr != nil && strings.HasPrefix(cerr.Error(), "PANIC") {
 		res.Fail("panic", "%s: %v", desc, cerr)
 		return res
@@ -335,7 +370,7 @@ func devString(m map[string]peer.Dev) string {
 
 var c03 = vh.Define(&vh.Def[c03Case]{
 	Property: "C03", Name: "negotiation",
-	Rule: "scripts = client configuration (insecure allowed or not, resource given or not, stream management requested or not, resumable state obtained from a real earlier connection or not) x server features (STARTTLS offered/required/absent, session absent/mandatory/optional, SM offered or not, success variants with extra features and white space) x 0-2 deviations drawn from {step} x {failure / stanza error in 3 forms incl. echoed payload, stream error, unexpected element (8), malformed XML (5), truncated element (4), close, half-close}; a real Client connects to the scripted peer over TCP (with a real TLS handshake against an in-memory CA); oracle = reference FSM of the negotiation: Connect nil iff no deviation hit a step the client reaches, exactly one SessionEstablished event iff success and none otherwise, the sequence of client requests equals the FSM's sequence and never goes beyond the faulty step, no request is already pending when the peer is about to answer the previous one (3 ms look-ahead, one-directional), Connect returns within the margin, no panic; non-trivial = the script contains a fault or a non-default success variant",
+	Rule: "scripts = client configuration (insecure allowed or not, resource given or not, stream management requested or not, resumable state obtained from a real earlier connection or not) x server features (STARTTLS offered/required/absent, session absent/mandatory/optional, SM offered or not, success variants with extra features and white space) x 0-2 deviations drawn from {step} x {failure / stanza error in 3 forms incl. echoed payload, stream error, unexpected element (8), malformed XML (5), truncated element (4), close, half-close}; a real Client connects to the scripted peer over TCP (with a real TLS handshake against an in-memory CA) or, in a quarter of the generated scripts, over WebSocket framing (no STARTTLS step); oracle = reference FSM of the negotiation: Connect nil iff no deviation hit a step the client reaches, exactly one SessionEstablished event iff success and none otherwise, the sequence of client requests equals the FSM's sequence and never goes beyond the faulty step, no request is already pending when the peer is about to answer the previous one (3 ms look-ahead, one-directional), Connect returns within the margin, no panic; non-trivial = the script contains a fault or a non-default success variant",
 	Quick: 320, Thorough: 8000, Journal: true,
 	Gen: genC03, Run: runC03,
 })
